@@ -369,6 +369,23 @@ class C01(Prop):
                 if not (0 <= k < len(chunks) and 0 <= j < len(chunks[k]) and sum(lens[:k]) + j == idx and chunks[k][j] == val
                         and flat[idx] == val):
                     return (f"chunk_local_index({idx}) = ({k},{j}) is not the chunk/position of global sample {idx} (value {val}) for chunk lengths {lens}", "chunk-local-index")
+            # the same map asked DURING the feeding: after every chunk, for every sample fed so far (a recorder that remembers
+            # the chunk limits of its first look-up - seeded change C01-m5 - answers the later ones from the old limits)
+            d2, rec2 = make(det)
+            fed = 0
+            for ci, c in enumerate(chunks):
+                d2.process(np.asarray(c, dtype=np.float64) * 2.0 ** case.get("exp", 0))
+                fed += len(c)
+                if fed == 0:
+                    continue
+                k, j = rec2.chunk_local_index(np.arange(fed))
+                k, j = [int(x) for x in np.atleast_1d(k)], [int(x) for x in np.atleast_1d(j)]
+                want = [(cc, pp) for cc, ch in enumerate(chunks[:ci + 1]) for pp in range(len(ch))]
+                if list(zip(k, j)) != want:
+                    bad = [i for i, (g, w) in enumerate(zip(zip(k, j), want)) if g != w][:1] or [min(len(k), len(want))]
+                    return (f"chunk_local_index asked after chunk {ci} of chunk lengths {lens} (and after every earlier chunk): global sample "
+                            f"{bad[0]} mapped to {list(zip(k, j))[bad[0]] if bad[0] < len(k) else None}, it is position {want[bad[0]] if bad[0] < len(want) else None}",
+                            "chunk-local-index")
         return None
 
     def shrink(self, case, still_fails):
